@@ -1,7 +1,7 @@
 """Sidecar contracts (DESIGN.md §2.3, §6).  /repo is never edited for them."""
 import importlib
 
-MODULES = ["helpers", "key_helpers", "fee_field", "int_fields", "txn_types", "addr_fields"]
+MODULES = ["helpers", "key_helpers", "stack_ast", "fee_field", "int_fields", "txn_types", "addr_fields", "generic"]
 
 
 def load_all():
